@@ -101,6 +101,20 @@ Inductive kstep : state -> state -> Prop :=
     (Hf : fupd (nodes s) n (mkN (term x) (voted x) Follower (log x) (commit x) (votesFrom x) (matchIdx x)) nds') :
     kstep s (mkS nds' (net s) (grants s) (wins s) (llog s) (acks s) (direct s)).
 
+(* the history lists only grow *)
+Lemma kstep_net s s' m : kstep s s' -> In m (net s) -> In m (net s').
+Proof. intros K H. destruct K; simpl; auto. Qed.
+Lemma kstep_grants s s' g : kstep s s' -> In g (grants s) -> In g (grants s').
+Proof. intros K H. destruct K; simpl; auto. Qed.
+Lemma kstep_wins s s' w : kstep s s' -> In w (wins s) -> In w (wins s').
+Proof. intros K H. destruct K; simpl; auto. Qed.
+Lemma kstep_acks s s' a : kstep s s' -> In a (acks s) -> In a (acks s').
+Proof. intros K H. destruct K; simpl; auto. Qed.
+Lemma kstep_direct s s' d : kstep s s' -> In d (direct s) -> In d (direct s').
+Proof. intros K H. destruct K; simpl; auto. Qed.
+Lemma kstep_won s s' T c : kstep s s' -> won s T c -> won s' T c.
+Proof. intros K [Q H]. exists Q. eapply kstep_wins; eauto. Qed.
+
 Inductive kreachable : state -> Prop :=
 | kreach_init : kreachable (init V)
 | kreach_step s s' : kreachable s -> kstep s s' -> kreachable s'.
